@@ -335,20 +335,22 @@ PROPS = {
     "C03": {
         "modules": ["SxVerif.Props.C03"],
         "components": ["bpf", "proc", "recv"],
+        "components": ["bpf", "proc", "e2ereply"],
         "trusted_base": [
-            "modelled, not verified: libpcap's filter compiler + the BPF interpreter, as the denotation Model/Bpf.lean gives to exactly the expressions tcp.BPFFilter / tcp.SYNACKBPFFilter / icmp.BPFFilter / arp.BPFFilter can produce, on DLT_EN10MB and DLT_IPV4 (three-valued: an out-of-range load rejects; IPv6 branches of `tcp` and `src portrange`; fragment test on the offset only; /0 drops the dead address load; swapped port bounds). Validated on every run by compiling the REAL filter strings with the real libpcap for the link type sx opens and executing the program in golang.org/x/net/bpf's VM on the same frames; the kernel's own interpreter and its truncation of delivered frames to the snap length (1518 / 64 bytes, beyond every header the processors read) are not exercised",
+            "modelled, not verified: libpcap's filter compiler + the BPF interpreter, as the denotation Model/Bpf.lean gives to exactly the expressions tcp.BPFFilter / tcp.SYNACKBPFFilter / icmp.BPFFilter / arp.BPFFilter can produce, on DLT_EN10MB and DLT_IPV4 (three-valued: an out-of-range load rejects; IPv6 branches of `tcp` and `src portrange`; fragment test on the offset only; /0 drops the dead address load; swapped port bounds). Validated on every run by compiling the REAL filter strings with the real libpcap for the link type sx opens and executing the program in golang.org/x/net/bpf's VM on the same frames; the harness hands the real processor the first snap-length bytes of each frame (1518 / 64, the value the program returns) as the ring would",
             "modelled, not verified: gopacket decoders and DecodingLayerParser loop (Model/Frame.lean, shared with C06), validated by component proc and again inside component bpf",
+            "modelled, not verified: the Linux receive path in front of a packet socket (Model/Wiring.kernelRx: an outer 802.1Q/802.1ad tag is removed before the socket filter runs and travels beside the frame; tagged frames shorter than 20 bytes are dropped), the socket filter's return value as capture length, the TPACKET_V3 ring and gopacket's afpacket reader (AncillaryVLAN). Validated on every run by component e2ereply: the REAL sx binary in a private network namespace (veth pair; tun device for vpn mode), frames put on the wire while it scans, its JSON records compared with the model and judged by the Spec",
             "wiring table (per command: filter function, processor constructor, scan-type constant, packet filter, flag printer, vpn flag on socket and processor, engine) and the facts about startPacketScanEngine / afpacket.Source regenerated by sxfacts (harness/cmd/sxfacts/wiring.go) from command/*.go, pkg/scan/*/, pkg/packet/afpacket on every run; the harness builds its real processors and real filter strings from the same regenerated rows",
         ],
         "assumptions": [
             "the frame is read while the engine runs ('arrives before the scan exits' is C16's clause)",
             "RangeOK: the target subnet is a network address without host bits and prefix <= 32 (what net.ParseCIDR returns, C02), port ranges have lo <= hi <= 65535 (C18; the port generator refuses lo > hi)",
-            "the kernel delivers to the socket exactly the frames the installed program accepts, each once",
-            "frames are not longer than the snap length the program returns (1518; arp 64), or truncating them to it is harmless: the processors and the reply shape read only the first 134 (arp: 42) bytes; stated, not proved, as def C03_snaplen_full",
+            "the kernel delivers to the socket exactly the frames the installed program accepts, each once, after its VLAN untagging (kernelRx); frames that arrive between socket creation and SetBPFFilter of an engine run are outside the theorems (e2ereply injects only after the first probe of the run is on the wire)",
+            "capture length (C03_snaplen_full / C03_snaplen_history): the processor is handed exactly the first min(length, n) bytes of an accepted frame, n = the maxPacketLength the row's filter function returns (regenerated: 1518, arp 64); the frame is not offload-wrapped (Spec.Reply.offloadWrap: IPv4 total length 0 AND 65536 or more bytes behind the link header, whose datagram length Spec/Frame.lean reads modulo 65536) -- false of every frame an interface with MTU < 65522 can deliver; C03_snaplen_captured needs no such hypothesis and says the record is that of the captured bytes",
             "spec decisions of DESIGN.md C03 (a)-(d): NS is not one of 'the flags SYN+ACK'; the SYN-scan record prints no flag letters; an IPv4 TLV option of length 2 is not well-formed (gopacket refuses it); trailing link-layer padding is allowed",
         ],
-        "level_text": "Lean theorems C03_exact / C03_iff / C03_property_form / C03_history / C03_chunks / C03_filters_compile over the wiring table regenerated from command/*.go on every run (wiring_compatible, wiring_complete, engine_facts are decided by the kernel on the regenerated data): for every packet-scan command row, with and without --vpn, every valid range (any subnet or none, any list of port ranges, hence every chunk of startPortScanEngine), every prior contents of the processor's reused decoder structs and every byte string on the wire, the installed BPF filter followed by the processor puts on the result channel exactly Spec.Reply.replyRecord of that frame: the record made of the frame's own source address, source port and flag letters / ICMP type, code, TTL / sender MAC if the frame is a well-formed unfragmented frame of the scanned protocol (flat offset-defined header chain of Spec/Frame.lean) whose source lies in the target subnet, whose source port lies in one of the ranges being scanned, whose TCP byte 13 is exactly 0x12 for the SYN scan and whose ICMP type is not 8 -- and nothing for any other byte string; at most one record per frame; for whole captures frame by frame independently of history. Proof: both directions of decoder <-> flat header chain (C06 gives record => chain; the converse forward-decoding lemmas are new), filter denotation collapsed to byte conditions on frames with a chain, netmask arithmetic (a AND mask = net <=> equal prefixes). Tied to the code by the translator (wiring) and by component bpf: real filter strings (render, byte for byte), real libpcap + BPF VM and real processors on frames aimed at the range, one-field-off variants, truncations at every header boundary, IPv6 / VLAN / fragments and all malformed families, with the Spec verdict evaluated on the observed outcome.",
-        "level_note": "Trusted: Lean kernel; sxfacts reads the wiring faithfully (cross-checked: the harness runs the rows it reports); libpcap/BPF and gopacket semantics are models validated differentially on every run (quick: 450 ranges x 8-14 frames + 300 render cases + 1.5k processor histories), not proved; kernel delivery and snap-length truncation are assumptions.",
+        "level_text": "Lean theorems C03_exact / C03_iff / C03_property_form / C03_history / C03_chunks / C03_filters_compile / C03_wire (frame as it is on the wire -> kernel VLAN untagging -> filter -> cut -> ReadPacketData tag check -> processor = replyRecord of the wire frame; dropsVlanTagged regenerated) / C03_snaplen_captured / C03_snaplen_full / C03_snaplen_history (filter on the whole frame, processor on the first maxPacketLength bytes -- regenerated snapLens, snaplen_facts -- for frames of ANY length: jumbo, total length beyond the capture, padded ARP) over the wiring table regenerated from command/*.go on every run (wiring_compatible, wiring_complete, engine_facts are decided by the kernel on the regenerated data): for every packet-scan command row, with and without --vpn, every valid range (any subnet or none, any list of port ranges, hence every chunk of startPortScanEngine), every prior contents of the processor's reused decoder structs and every byte string on the wire, the installed BPF filter followed by the processor puts on the result channel exactly Spec.Reply.replyRecord of that frame: the record made of the frame's own source address, source port and flag letters / ICMP type, code, TTL / sender MAC if the frame is a well-formed unfragmented frame of the scanned protocol (flat offset-defined header chain of Spec/Frame.lean) whose source lies in the target subnet, whose source port lies in one of the ranges being scanned, whose TCP byte 13 is exactly 0x12 for the SYN scan and whose ICMP type is not 8 -- and nothing for any other byte string; at most one record per frame; for whole captures frame by frame independently of history. Proof: both directions of decoder <-> flat header chain (C06 gives record => chain; the converse forward-decoding lemmas are new), filter denotation collapsed to byte conditions on frames with a chain, netmask arithmetic (a AND mask = net <=> equal prefixes). Tied to the code by the translator (wiring) and by component bpf: real filter strings (render, byte for byte), real libpcap + BPF VM and real processors on frames aimed at the range, one-field-off variants, truncations at every header boundary, IPv6 / VLAN / fragments and all malformed families, with the Spec verdict evaluated on the observed outcome; and end to end by component e2ereply: each of the 8 commands as the real binary in a network namespace (Ethernet veth and tun/vpn mode, one port list of > chunkSize ranges = several engine runs, each with its own filter), structured frames injected while it scans, the multiset of JSON records on stdout = model = Spec.",
+        "level_note": "Trusted: Lean kernel; sxfacts reads the wiring faithfully (cross-checked: the harness runs the rows it reports); libpcap/BPF and gopacket semantics are models validated differentially on every run (quick: 450 ranges x 8-14 frames + 300 render cases + 1.5k processor histories), not proved; kernel delivery is an assumption; truncation to the capture length is proved harmless (Proofs/Snap*.lean: the filters load nothing beyond byte 88, the header chains and IPv4 option check depend on the first 134 / 42 bytes only).",
     },
     "C15": {
         "modules": ["SxVerif.Props.C15"],
